@@ -1362,7 +1362,7 @@ func ownFrameKind(w *World, v ssa.Value) (string, string) {
 }
 
 func checkC08(w *World, r *Report) {
-	r.Explanation = "Structural clause of C08: (K-1) the durable writes reachable from RigoApp.Commit are enumerated in execution order; the record that Info reads back (PutLastBlockContext) is written after all four controllers' commits and after the version-equality test, and nothing but the legacy height record follows it — so a crash before it leaves Info reporting the previous block; (K-2) divergence is detected: the version-equality tests in the application, governance and stake commits panic / fail before the meta record is written, RigoApp.BeginBlock and EVMCtrler.BeginBlock test height continuity before any effect, and Info reports what the meta store holds; (K-3) some function on the start-up path must bring every store back to the persisted height (version rollback / overwrite, or a comparison of store versions with the meta height) — absent on this tree, recorded as one known finding per gap between consecutive durable writes of a commit; (K-4) what Commit writes is what a restarted node reads: the last-block record is written and read as one type whose MarshalJSON/UnmarshalJSON use identical wire structs and map every wire field from/to the same record field, every encoding/json decode target in the state packages is decodable by encoding/json (no non-empty interface / chan / func component outside a type with its own unmarshaller), and Info reports the record's height and app hash; (K-6) every return of InitChain has initialised the three ledgers, whatever the meta store already holds: the chain-id record is durable at once, the genesis state only with the first Commit, and a node killed in between is sent InitChain again; (K-5) the crash point just after a commit is a restart at a block boundary: every controller field written during block execution is block-scoped, rebuilt from durable state at start-up or handed over, and every record start-up reads is written by every commit with the value kept in memory (C07 R-1, R-2); what only the overlay cache holds is lost by the crash, so an item changed in place is marked and tested nil-ness survives the store (C07 R-3, R-4)."
+	r.Explanation = "Structural clause of C08: (K-1) the durable writes reachable from RigoApp.Commit are enumerated in execution order; the record that Info reads back (PutLastBlockContext) is written after all four controllers' commits and after the version-equality test, and nothing but the legacy height record follows it — so a crash before it leaves Info reporting the previous block; (K-2) divergence is detected: the version-equality tests in the application, governance and stake commits panic / fail before the meta record is written, RigoApp.BeginBlock and EVMCtrler.BeginBlock test height continuity before any effect, and Info reports what the meta store holds; (K-3) some function on the start-up path must bring every store back to the persisted height (version rollback / overwrite, or a comparison of store versions with the meta height) — absent on this tree, recorded as one known finding per gap between consecutive durable writes of a commit; (K-4) what Commit writes is what a restarted node reads: the last-block record is written and read as one type whose MarshalJSON/UnmarshalJSON use identical wire structs and map every wire field from/to the same record field, every encoding/json decode target in the state packages is decodable by encoding/json (no non-empty interface / chan / func component outside a type with its own unmarshaller), and Info reports the record's height and app hash; (K-6) every return of InitChain has initialised the three ledgers, whatever the meta store already holds: the chain-id record is durable at once, the genesis state only with the first Commit, and a node killed in between is sent InitChain again; (K-5) the crash point just after a commit is a restart at a block boundary: every controller field written during block execution is block-scoped, rebuilt from durable state at start-up or handed over, and every record start-up reads is written by every commit with the value kept in memory (C07 R-1, R-2); what only the overlay cache holds is lost by the crash, so an item changed in place is marked and tested nil-ness survives the store (C07 R-3, R-4). K-1 also closes the readers of the legacy height / app-hash records: only Info's start-up fall-back (they are written after the block context record, by separate writes, and may lag one block after a crash)."
 	r.NotCovered = "that a replay after realignment reproduces the hashes; torn writes inside one store (LevelDB / iavl); unchecked write errors of the meta store (errcheck cross-reference)."
 	cm := needFn(r, "K-1", w, fref{"node", "RigoApp", "Commit"})
 	if cm == nil {
@@ -1531,6 +1531,15 @@ func checkC08(w *World, r *Report) {
 			}
 		}
 		r.Check(linked, "K-2", refStr(ct.ref)+":version-equality", "unequal ledger versions fail the commit", refStr(ct.ref)+" no longer compares the versions of its ledgers", fnSite(w, fn))
+	}
+	// K-1 (single source of truth): what a restarted node resumes from is the block
+	// context record alone. The legacy height / app-hash records are written after
+	// it, one by one, so a crash can leave them one block behind: they are read by
+	// Info's backward-compatibility fall-back and by nothing on the block path — a
+	// check against them in BeginBlock..Commit stops a node that crashed between
+	// the two writes for good, on every replay.
+	for _, legacy := range []string{"LastBlockHeight", "LastBlockAppHash"} {
+		w.checkCallers(r, "K-1", fref{pkgCT, "MetaDB", legacy}, map[string]string{"node.(*RigoApp).Info": "start-up fall-back for stores written by older releases"}, 0)
 	}
 	// K-6: the genesis state is durable only with the first Commit, while InitChain's
 	// chain-id record is written at once. A node killed in between reports height 0
@@ -1709,7 +1718,7 @@ func startupLag(w *World, r *Report, rule string) {
 // ---------------------------------------------------------------- C10
 
 func checkC10(w *World, r *Report) {
-	r.Explanation = "Structural clause of C10: (U-1) the candidate list is rebuilt in BeginBlock from the committed delegatee tree, filtered by SelfPower >= AmountToPower(MinValidatorStake()), sorted with PowerOrderDelegatees (a total order: power, stake count, address), and truncated to min(len, MaxValidatorCnt()); (U-2) validatorUpdates is a merge-diff whose behaviour depends only on sign(compare(existing[i].Addr, newers[j].Addr)) and on TotalPower inequality: per branch the emitted (public key, power) and the index increments are compared with the decision table, both inputs are sorted with AddressOrderDelegatees (whose direction agrees with the merge) immediately before the call; (U-3) the new selection becomes lastValidators after the diff and the diff is what EndBlock returns to consensus; (U-4) the set the diff is computed against must survive a restart (C07 R-1); (U-5) a deleted delegatee record is not written back on the same path; (U-6) an object of the candidate list (decoded from the committed tree) does not become the delegatee overlay's working object (C01 D-6 stale-copy). (U-7) the iterator the candidates are rebuilt with reads the tree alone (C18 L-2)."
+	r.Explanation = "Structural clause of C10: (U-1) the candidate list is rebuilt in BeginBlock from the committed delegatee tree, filtered by SelfPower >= AmountToPower(MinValidatorStake()), sorted with PowerOrderDelegatees (a total order: power, stake count, address), and truncated to min(len, MaxValidatorCnt()); (U-2) validatorUpdates is a merge-diff whose behaviour depends only on sign(compare(existing[i].Addr, newers[j].Addr)) and on TotalPower inequality: per branch the emitted (public key, power) and the index increments are compared with the decision table, both inputs are sorted with AddressOrderDelegatees (whose direction agrees with the merge) immediately before the call; (U-3) the new selection becomes lastValidators after the diff and the diff is what EndBlock returns to consensus; (U-4) the set the diff is computed against must survive a restart (C07 R-1); (U-5) a deleted delegatee record is not written back on the same path; (U-6) an object of the candidate list (decoded from the committed tree) does not become the delegatee overlay's working object (C01 D-6 stale-copy). (U-7) the iterator the candidates are rebuilt with reads the tree alone (C18 L-2). U-8 also requires that Delegatee.Decode and Stake.Decode have no failing path once the library's Unmarshal succeeded."
 	r.NotCovered = "the fold of updates over a history; Tendermint's acceptance rules; negative powers (TotalPower is non-negative by C11)."
 	u1(w, r)
 	u2(w, r)
@@ -1763,6 +1772,19 @@ func checkC10(w *World, r *Report) {
 	for _, tn := range []string{"Delegatee", "Stake"} {
 		enc, dec := w.codecLibOf(pkgStake, tn, "Encode", "Marshal"), w.codecLibOf(pkgStake, tn, "Decode", "Unmarshal")
 		r.Check(enc != "" && enc == dec, "U-8", "codec-pair:"+tn, "written and read by the same library ("+enc+")", fmt.Sprintf("%s records are written with %q and read with %q: a value the two treat differently makes the committed record unreadable", tn, enc, dec), "ctrlers/stake")
+	}
+	// ... and the decoder refuses nothing the library accepts: with the library's
+	// decoding successful, Decode has no failing path. Every shape a commit can write
+	// (a delegatee slashed down to no stake and power 0 is one) must be readable, or
+	// the scan stops at that record and the validators behind it are dropped.
+	for _, tn := range []string{"Delegatee", "Stake"} {
+		dfn := needFn(r, "U-8", w, fref{pkgStake, tn, "Decode"})
+		if dfn == nil {
+			continue
+		}
+		o := w.runUnder(dfn, nil, nil, AR(`\.Unmarshal\(.*\)$`, "==", `^nil$`))
+		good := o.complete && o.allConsulted && o.ok > 0 && o.err == 0
+		r.Check(good, "U-8", "decoder-accepts-what-the-library-accepts:"+tn, "when the library decodes the bytes, Decode succeeds: no further rejection", fmt.Sprintf("%s.Decode can fail although the library decoded the record (%d failing path(s)): a record that a commit legitimately wrote becomes unreadable, the scan of the committed tree stops there and every candidate behind it is lost", tn, o.err), fnSite(w, dfn))
 	}
 	// U-7: "rebuilt from the committed delegatee tree" holds only if the tree's
 	// iterator reads the tree alone: an iterator that also consults an overlay (the
